@@ -3,7 +3,7 @@ from __future__ import annotations
 
 import ast
 
-from ..source import norm, walk_no_nested
+from ..source import FuncInfo, norm, walk_no_nested
 from .common import is_name
 from .config_rules import check_constants
 from . import array_folds as af
@@ -66,7 +66,7 @@ def check_registry(run, tree):
     run.ob("units/units.py::single-instance", ok_inst, "units/units.py",
            "%d module-level instances of the Units class; osyris.units resolves to %s" % (len(inst), "that instance" if ok_inst else exported), "osyris.units and the units used by Array differ")
     # the Units class folded on a recording registry: constants defined on THE registry; __call__ contract; define forwarded
-    from ..models import ModelEval, Raised
+    from ..models import ModelEval, Raised, Marker
     from ..peval import Model, Unsupported
     from .array_folds import Q, U
     from .core_models import RawTok
@@ -88,18 +88,38 @@ def check_registry(run, tree):
                 return []
             raise Unsupported("pint.UnitRegistry.%s is not in the registry model" % name)
 
+        def preprocess(self, text):
+            """pint runs the registry's preprocessors over every string it is asked to parse"""
+            pre = list(self.kw.get("preprocessors") or []) + list(self.__dict__.get("extra_pre", []))
+            for f in pre:
+                if isinstance(f, Marker) and f.kind == "pkg" and isinstance(f.data[0], FuncInfo):
+                    text = ModelEval(tree, f.data[0], {}, hk).invoke(f.data[0], [text], {}, None)
+                elif callable(f):
+                    text = f(text)
+                else:
+                    raise Unsupported("preprocessor %r" % (f,))
+            return text
+
+        @property
+        def preprocessors(self):
+            self.__dict__.setdefault("extra_pre", [])
+            return self.__dict__["extra_pre"]
+
         def __call__(self, arg):
             reg = self
+            text = self.preprocess(arg) if isinstance(arg, str) else arg
 
             class Parsed(Model):
-                units = ("parsed-by", id(reg), arg)
+                units = ("parsed-by", id(reg), text)
                 u = units
             return Parsed()
 
     class Config(Model):
         def configure_constants(self, reg, *a):
             configured.append(reg)
-    hk = {"ext": {"pint.UnitRegistry": Registry, "pint.registry.UnitRegistry": Registry},
+    import re as _re
+    hk = {"ext": {"pint.UnitRegistry": Registry, "pint.registry.UnitRegistry": Registry, "re.compile": _re.compile, "re.sub": _re.sub, "re.match": _re.match,
+                  "re.fullmatch": _re.fullmatch, "re.search": _re.search, "re.escape": _re.escape, "re.IGNORECASE": _re.IGNORECASE, "re.I": _re.I},
           "globals": {"config/__init__.py::config": Config(), "__init__.py::config": Config()}}
     ui = tree.cls("units/units.py::Units")
     init = tree.method(ui, "__init__")
@@ -148,6 +168,28 @@ def check_registry(run, tree):
                "units(s) over the sequence %s: %s" % (seq, "each parsed as written by the one registry" if not wrong else
                                                       "; ".join("units(%r) gives the unit parsed from %r" % w for w in wrong[:3])),
                "units('m s') returns millisecond after units('ms') was seen (a cache keyed on a normalised spelling)")
+        # every symbol the configuration defines reaches the parser as it is written (a preprocessor or a normalisation step may not rewrite it)
+        try:
+            cc = tree.func("config/defaults.py::configure_constants")
+            run.analysed(cc)
+            reg2 = regs[0] if regs else None
+            n0 = len(reg2.defined)
+            ModelEval(tree, cc, {}, hk).invoke(cc, [reg2], {}, None)
+            symbols = []
+            for (a_, k_) in reg2.defined[n0:]:
+                if a_ and isinstance(a_[0], str):
+                    parts = [p_.strip() for p_ in a_[0].split("=")]
+                    symbols += [parts[0]] + [p_ for p_ in parts[2:] if p_ and p_ != "_"]
+            mangled = []
+            for sym in symbols:
+                r = ev.invoke(call, [inst, sym], {}, None)
+                if not (isinstance(r, tuple) and r[:2] == ("parsed-by", id(reg2)) and r[2] == sym):
+                    mangled.append("units(%r) is parsed as %r" % (sym, r[2] if isinstance(r, tuple) and len(r) > 2 else r))
+            run.ob("units/units.py::Units.__call__[defined symbols]", bool(symbols) and not mangled, call.where(),
+                   "; ".join(mangled[:3]) or "%d defined names and symbols (M_sun, L_bol0, ar, ...) reach the parser as written" % len(symbols),
+                   "a unit the package defines cannot be used under its own symbol (e.g. L_bol0 rewritten to L_bol**0 by an exponent preprocessor)")
+        except Raised as e:
+            run.violated("units/units.py::Units.__call__[defined symbols]", call.where(), "raises %s" % e, "units(<defined symbol>)")
         d = tree.method(ui, "define")
         if d is not None:
             ev.invoke(d, [inst, "x = 1 * cm"], {}, None)
